@@ -78,4 +78,43 @@ def specStep (pos0 : Bool) (bom : Bom) (d : Bytes) : Option Step1 :=
   | (_, .bomFill) => interp d (fbLoop pos0 d .top 0 .notPresent)   -- fewer than three bytes in all: not a BOM
   | res => interp d res
 
+/-! ### what has to fit in the buffer -/
+
+/-- bytes the buffer must hold so that the refill requested by a scan of the window `w` does not report `BufferFull`:
+the carried bytes plus one more byte (the look-ahead / the next byte of the token) -/
+def carryNeed (w : Bytes) : Bom × Scan → Nat
+  | (_, .refill _ k _) => k + 1
+  | (_, .bomFill) => w.length + 1
+  | _ => 0
+
+def maxOver : Nat → (Nat → Nat) → Nat
+  | 0, f => f 0
+  | n + 1, f => max (f (n + 1)) (maxOver n f)
+
+/-- the largest requirement over all windows that are prefixes of the remaining input `d`, for one call: these are the
+prefixes of the FIRST item of `d` (blank run, comment, token with its look-ahead); longer prefixes decide the token. -/
+def callNeed (pos0 : Bool) (bom : Bom) (d : Bytes) : Nat :=
+  maxOver d.length (fun j =>
+    max (carryNeed (d.take j) (fbLoop pos0 (d.take j) .top 0 bom))
+        -- fewer than three bytes in all: the BOM arm's refill can hit the end, the scan then restarts with the BOM ruled out
+        (if d.length < 3 then carryNeed (d.take j) (fbLoop pos0 (d.take j) .top 0 .notPresent) else 0))
+
+/-- … and over all calls: follow the reference tokenizer from token to token -/
+def needFrom : Nat → Nat → Bom → Bytes → Nat
+  | 0, _, _, _ => 0
+  | n + 1, pos, bom, d =>
+    max (callNeed (pos == 0) bom d)
+      (match specStep (pos == 0) bom d with
+       | some (.tok adv _ b') => needFrom n (pos + adv) b' (d.drop adv)
+       | _ => 0)
+
+/-- **the fit predicate**: the smallest buffer capacity with which every token, comment and look-ahead of `data` fits
+(comment length + 1, unquoted length + 1, quoted content + 1, `@[…]` length, 2 for an operator, up to 3 for a leading
+`0xEF`, at least 1).  A decidable function of the input; the harness computes the same number with an independent
+byte-at-a-time lexer (`ref_lex(..).need`, compared by the op `tneed`). -/
+def need (data : Bytes) : Nat := max 1 (needFrom (fuelFor data) 0 .unknown data)
+
+/-- the buffer of capacity `cap` can hold the longest token / comment of `data` together with its look-ahead byte -/
+def fits (cap : Nat) (data : Bytes) : Bool := decide (need data ≤ cap)
+
 end Jomini.TextReader.Spec
